@@ -1,7 +1,7 @@
 (* Proof/TrajAP.v — the assembled A-FSSH pass and whole A-FSSH runs (Model/Traj.step_af, run_af).
    Kept apart from TrajP.v because it needs AfsshP.v, which depends on the Interval library through PoissonP.v. *)
 From Coq Require Import Reals ZArith List Lra Lia Bool.
-From MV Require Import Ops RInst Vec Cplx Mat CRing MatP Poisson Hop Hopper Propagate Traj HopP PropagateP Afssh AfsshP CollapseP TrajP.
+From MV Require Import Ops RInst Vec Cplx Mat CRing MatP Poisson Hop Hopper Propagate Traj HopP PropagateP Afssh AfsshP CollapseP TrajP WmidP.
 Import ListNotations.
 Open Scope R_scope.
 
@@ -199,3 +199,43 @@ Proof.
     { rewrite (step_af_active _ _ _ _ _ _ _ _ _ _ _ _ _ _ _ _ _ _ Es). destruct att as [[t [|]]|]; [apply He; reflexivity | exact Ha | exact Ha]. }
     apply (IH s1 sf' evs' Er Hds Ha1 Hevs A B C0).
 Qed.
+
+(* the rk4 pass under primitive hypotheses: symmetric Hamiltonians, antisymmetric coupling tensors *)
+Lemma step_af_rk4_hermitian' n m dt poisson zeta eprev e0 e1 fm1 lam Cm etas (s s' : astate (T:=R)) att coll :
+  step_af_rk4 ROps n m dt poisson zeta eprev e0 e1 fm1 lam Cm etas s = (s', att, coll) ->
+  hsym n (eH eprev) -> hsym n (eH e0) -> hsym n (eH e1) -> tanti n (etau eprev) -> tanti n (etau e0) -> tanti n (etau e1) ->
+  length lam = n -> unitary n (mget ROps Cm) -> (pact (ab s) < n)%nat ->
+  (forall t, att = Some (t, true) -> (t < n)%nat) ->
+  Forall (fun fmx => forall i j, (i < n)%nat -> (j < n)%nat -> nth j (nth i fmx []) (o0 ROps) = nth i (nth j fmx []) (o0 ROps)) fm1 ->
+  Forall (mherm n) (adelR s) -> Forall (mherm n) (adelP s) -> mherm n (prho (ab s)) ->
+  Forall (mherm n) (adelR s') /\ Forall (mherm n) (adelP s') /\ mherm n (prho (ab s')).
+Proof.
+  intros H Sp S0 S1 Ap A0 A1 Hl HC Ha Ht Hfm HR HP Hr.
+  exact (step_af_rk4_hermitian n m dt poisson zeta eprev e0 e1 fm1 lam Cm etas s s' att coll H
+           (Wmid_herm n _ _ _ _ _ _ Sp S0 Ap A0) (fun v1 => Wmid_herm n _ _ _ _ v1 _ S0 S1 A0 A1) Hl HC Ha Ht Hfm HR HP Hr).
+Qed.
+
+Definition af_rk_ok (n : nat) (d : adata (T:=R)) : Prop :=
+  af_ok n d /\ hsym n (eH (aeprev d)) /\ hsym n (eH (ae0 d)) /\ hsym n (eH (ae1 d))
+  /\ tanti n (etau (aeprev d)) /\ tanti n (etau (ae0 d)) /\ tanti n (etau (ae1 d)).
+
+Theorem run_af_rk4_hermitian n m dt poisson (ds : list (adata (T:=R))) : forall s sf evs,
+  run_af_rk4 ROps n m dt poisson ds s = (sf, evs) ->
+  Forall (af_rk_ok n) ds -> (pact (ab s) < n)%nat ->
+  Forall (fun ev => forall t, fst ev = Some (t, true) -> (t < n)%nat) evs ->
+  Forall (mherm n) (adelR s) -> Forall (mherm n) (adelP s) -> mherm n (prho (ab s)) ->
+  Forall (mherm n) (adelR sf) /\ Forall (mherm n) (adelP sf) /\ mherm n (prho (ab sf)) /\ (pact (ab sf) < n)%nat.
+Proof.
+  induction ds as [|d ds IH]; intros s sf evs H Hok Ha Hev HR HP Hr.
+  - cbn in H. injection H as <- <-. repeat split; assumption.
+  - cbn [run_af_rk4] in H.
+    destruct (step_af_rk4 ROps n m dt poisson (azeta d) (aeprev d) (ae0 d) (ae1 d) (afm1 d) (alam d) (aC d) (aetas d) s) as [[s1 att] coll] eqn:Es.
+    destruct (run_af_rk4 ROps n m dt poisson ds s1) as [sf' evs'] eqn:Er. injection H as <- <-.
+    pose proof (Forall_inv Hok) as Hd. pose proof (Forall_inv_tail Hok) as Hds. destruct Hd as ((Hl & HC & Hfm) & Sp & S0 & S1 & Ap & A0 & A1).
+    pose proof (Forall_inv Hev) as He. pose proof (Forall_inv_tail Hev) as Hevs. cbn [fst] in He.
+    destruct (step_af_rk4_hermitian' n m dt poisson _ _ _ _ _ _ _ _ s s1 att coll Es Sp S0 S1 Ap A0 A1 Hl HC Ha He Hfm HR HP Hr) as (A & B & C0).
+    assert (pact (ab s1) < n)%nat as Ha1.
+    { rewrite (step_af_rk4_active _ _ _ _ _ _ _ _ _ _ _ _ _ _ _ _ Es). destruct att as [[t [|]]|]; [apply He; reflexivity | exact Ha | exact Ha]. }
+    apply (IH s1 sf' evs' Er Hds Ha1 Hevs A B C0).
+Qed.
+
